@@ -4,6 +4,7 @@ import re
 from fractions import Fraction as Fr
 
 from ..srcmodel import AnalysisError
+from ..stages import estimates
 from ..algebra import Poly, Z8, alg_equal
 from .. import ndarr
 from ..ndarr import Arr, InterpRaise
@@ -229,7 +230,7 @@ def defaults(ctx, sg, lim):
         for n, want in ((1, 2), (2, Fr(8, 5)), (5, Fr(8, 5))):
             g = cls()
             sgf = I.getattr(g, 'step_generator_function')(x, 'central', n, 2)
-            got = sgf.attrs['step_ratio']
+            got = I.getattr(sgf, 'step_ratio')
             rep.check(same(got, want), 'R-DEFAULTS', 'step_generators.%s.step_ratio' % name, sg.relpath,
                       {'n': n, 'ratio': repr(got)}, '2 for n = 1 else 1.6', '%s/n=%d' % (name, n), key='default-ratio')
     g = C()
@@ -262,7 +263,7 @@ def defaults(ctx, sg, lim):
         seq = []
         for n in (1, 3, 1, 2):
             sgf = I.getattr(g, 'step_generator_function')(x, 'central', n, 2)
-            seq.append((n, sgf.attrs['step_ratio']))
+            seq.append((n, I.getattr(sgf, 'step_ratio')))
         ok = all(same(r, 2 if n == 1 else Fr(8, 5)) for n, r in seq)
         rep.check(ok, 'R-DEFAULTS', 'step_generators.%s.step_ratio' % name, sg.relpath,
                   {'ratios_for_n_1_3_1_2': [repr(r) for n, r in seq]}, '2, 1.6, 2, 1.6 on one generator object',
@@ -440,7 +441,7 @@ def enough(ctx):
                     label = '%s/%s/n=%d/order=%d' % (gen_kind, method, n, order)
                     try:
                         obj, x = P.build('Derivative', method, order, n=n, step=step)
-                        (der, h, shape), fxi = I.getattr(obj, '_derivative_nonzero_order')(x, (), {})
+                        (der, h, shape), fxi = estimates(I, obj, x)
                         rows = der.shape[0]
                         rep.ok('R-ENOUGH', 'core.Derivative._get_steps', core.relpath,
                                {'steps_generated': len(P.calls) and None, 'estimate_rows': rows}, label)
